@@ -222,6 +222,26 @@ def finish_check(pid, tier, results, t0, *, checker_cmd, not_covered, trusted_ex
     violations += 1
     tail = "" if found else " no-failing-input-found"
     lines.append(f"VIOLATION property={pid} replay={path}{tail}")
+  if not groups and (errors or unknown or undecided) and replay is not None:
+    # the deductive side could not decide (engine limit / contract to be extended / solver unknown): the native oracle of
+    # the property is consulted; a failing input on the real code is a violation, its absence leaves the verdict undecided
+    try:
+      oracle = replay()
+    except Exception as e:  # pylint: disable=broad-except
+      oracle = {"error": repr(e), "violations": []}
+    hits = (oracle or {}).get("violations", []) if isinstance(oracle, dict) else []
+    hits = [h for h in hits if not any(k["property"] == pid and k.get("native_match") and k["native_match"] in json.dumps(h)
+                                       for k in known["known"])]
+    if hits:
+      path = os.path.join(outdir, "replay_native_oracle_while_undecided.json")
+      with open(path, "w") as fh:
+        json.dump({"property": pid, "obligation": "undecided: " + "; ".join([str(u)[:200] for u in (undecided or [])][:3] +
+                                                                            [str(e_)[:200] for e_ in (errors or [])][:3] +
+                                                                            [o["name"] for _, o in unknown][:3]),
+                   "native": {"oracle_cases": oracle.get("cases"), "bound": oracle.get("bound"), "failing_inputs": hits[:5]}},
+                  fh, indent=1, default=str)
+      violations += 1
+      lines.append(f"VIOLATION property={pid} replay={path}")
   # known findings that are re-confirmed natively
   kf_lines = []
   if known_confirm is not None:
